@@ -145,8 +145,10 @@ theorem reorder_is_permutation (ds : List Dir) : (reorder ds).dirs.Perm ds := re
     catalogue is among the messages `Translator.extract` reports for the same stream.
     Proved, by a simultaneous induction over `Translator.__call__` and `Translator.extract`
     with the skip counter shared, for every template stream all of whose message directives
-    are plain `i18n:msg` elements `<t i18n:msg="ps">content</t>` with content free of nested
-    directives and a buffer that can be built (`okMsgList`) — and otherwise any nesting of
+    are plain `i18n:msg` directives — `<t i18n:msg="ps">content</t>` or
+    `<i18n:msg params="ps">content</i18n:msg>`, the latter neither starting nor ending with an
+    element (finding C19-msg-element-first-child) — with content free of nested directives
+    and a buffer that can be built (`okMsgList`) — and otherwise any nesting of
     py: directives, i18n:domain / ctxt / comment (including the loops that edit the directive
     list under their own iterator), ignored tags, xml:lang, any configuration and context:
       * extraction never raises;
@@ -156,8 +158,9 @@ theorem reorder_is_permutation (ds : List Dir) : (reorder ds).dirs.Perm ds := re
         `msg_lookup_extracted` the stream the directive sees after the pass gives the same id)
         is extracted.
     Missing for the full statement: `i18n:choose` (its branches are looked up fragment-wise:
-    finding C19-fragments, witness `fragments_looked_up_not_extracted`), message directives
-    with nested directives or in element form, and gettext calls made by template code. -/
+    finding C19-fragments, witness `fragments_looked_up_not_extracted`; the directive's own
+    look-up: `choose_lookup_extracted`) and message directives with nested directives; the
+    gettext calls made by template code are `code_calls_extracted`. -/
 theorem lookups_subset_extract_partial (cfg : Cfg) (ctx : Ctx) (s : TStream) (h : okMsgList s = true) :
     ∃ ms, extract cfg s = .ok ms ∧
       (∀ l ∈ lookups cfg ctx true true s, hasLetter l.msgid = true → l.msgid ∈ idsOf ms) ∧
@@ -184,6 +187,18 @@ example : noMsgList
       [.start ⟨[], ['p']⟩ [(⟨[], ['t','i','t','l','e']⟩, .str ['T','i','p'])], .text [' ', 'H', 'i', ' '],
        .sub [.other ['i','f'], .ctxt ['m']] [.start ⟨[], ['b']⟩ [], .text ['x', '1'], .end_ ⟨[], ['b']⟩],
        .end_ ⟨[], ['p']⟩]).map Lookup.msgid = [['T','i','p'], ['H','i'], ['x','1']] := by
+  refine ⟨by decide +kernel, by decide +kernel⟩
+
+/-- the element form is among the streams of `lookups_subset_extract_partial`:
+    `<i18n:msg params="n">Hi <b title="T">x</b> ${n}</i18n:msg>` -/
+example :
+    okMsgList
+      [.sub [.msg [['n']]] [.text ['H','i',' '], .start ⟨[], ['b']⟩ [(⟨[], ['t','i','t','l','e']⟩, .str ['T'])],
+         .text ['x'], .end_ ⟨[], ['b']⟩, .text [' '], .expr 0 []]] = true ∧
+    msgIdsList
+      [.sub [.msg [['n']]] [.text ['H','i',' '], .start ⟨[], ['b']⟩ [(⟨[], ['t','i','t','l','e']⟩, .str ['T'])],
+         .text ['x'], .end_ ⟨[], ['b']⟩, .text [' '], .expr 0 []]] =
+      [['H','i',' ','[','1',':','x',']',' ','%','(','n',')','s']] := by
   refine ⟨by decide +kernel, by decide +kernel⟩
 
 /-- **lookups_subset_extract, gettext calls made by template code.**  For every stream as in
